@@ -270,16 +270,16 @@ func runC38(t *testing.T, tp *simrt.Tape, keepTrace bool) hx.Result {
 	// (otherwise the repository is re-indexed on every run without converging).
 	if !skip && killed == "" {
 		if err := c38Build(b.opts(dir), docs); err != nil {
-			res.Violations = append(res.Violations, hx.Violation{Sig: "re-index-fails|" + what, Detail: desc + ": " + err.Error()})
+			res.Violations = append(res.Violations, hx.Violation{Sig: "re-index-fails", Detail: desc + ": " + err.Error()})
 		} else {
 			ob2 := b.opts(dir)
 			st2, _ := ob2.IndexState()
 			after := observe(dir)
 			res.Evals++
 			if st2 != index.IndexStateEqual {
-				res.Violations = append(res.Violations, hx.Violation{Sig: "not-up-to-date-after-re-index|" + what, Detail: fmt.Sprintf("%s; after a successful re-index with the new options IndexState=%s; files %v", desc, st2, lsDir(dir))})
+				res.Violations = append(res.Violations, hx.Violation{Sig: "not-up-to-date-after-re-index", Detail: fmt.Sprintf("%s; after a successful re-index with the new options IndexState=%s; files %v", desc, st2, lsDir(dir))})
 			} else if fmt.Sprint(after.Docs) != fmt.Sprint(want.Docs) || fmt.Sprint(after.Repos) != fmt.Sprint(want.Repos) || len(after.Unloadable) > 0 {
-				res.Violations = append(res.Violations, hx.Violation{Sig: "index-differs-from-fresh-build-after-re-index|" + what, Detail: fmt.Sprintf("%s; after the re-index: docs %v repos %v; a fresh build gives docs %v repos %v; files %v", desc, briefDocs(after.Docs), after.Repos, briefDocs(want.Docs), want.Repos, lsDir(dir))})
+				res.Violations = append(res.Violations, hx.Violation{Sig: "index-differs-from-fresh-build-after-re-index", Detail: fmt.Sprintf("%s; after the re-index: docs %v repos %v; a fresh build gives docs %v repos %v; files %v", desc, briefDocs(after.Docs), after.Repos, briefDocs(want.Docs), want.Repos, lsDir(dir))})
 			}
 		}
 	}
